@@ -398,6 +398,12 @@ def build():
     # element types bool in value positions
     top("MOptLongBool", [Field("alpha", "opt", "long", "bool")])
     top("MVecLongBool", [Field("bravo_x", "vec", "long", "bool")])
+    # `Option<bool>` / `Option<Option<bool>>` are NOT flags: default_action looks at the field type (only the simple path
+    # `bool` gets SetTrue), so they take a value and are None when absent (a seeded change decided on the inner type)
+    top("MOptShortBool", [Field("alpha", "opt", "short", "bool")])
+    top("MOptoptLongBool", [Field("carol", "optopt", "long", "bool")])
+    top("ABoolVsOptBool", [Field("alpha", "bool", "long", None), Field("bravo_x", "opt", "long", "bool"),
+                           Field("carol", "optopt", "short", "bool"), Field("delta_y", "optvec", "long", "bool")])
 
     # ---- attributes
     top("ADefaults", [Field("alpha", "plain", "long", "u8", default="7"),
